@@ -96,6 +96,8 @@ Definition apply_mark (k : nat) (y : iyield) (b : list N) : list N :=
   match y with
   | YRow (Some w) => mark_range k (off w) (len w) b
   | YCell (Some i) => mark_range k i 1 b
+  (* col_mut(c)[i] += mark: IndexMut writes through to the indexed cell *)
+  | YIdx (Ok i) => mark_range k i 1 b
   | _ => b
   end.
 
